@@ -478,7 +478,7 @@ class Ctx:
 PURE_SRCS = COMMON_SRCS + ['user.c', 'fw_query.c']
 
 
-def prepare(rep, harnesses=('pure',), sanitize=None, prove_it=True, proof_timeout=1800):
+def prepare(rep, harnesses=('pure',), sanitize=None, prove_it=True, proof_timeout=1800, model=None):
     """snapshot -> translate -> prove -> extract+driver -> build harnesses.
     Failures of the tie (translator anchor, harness build, extraction) and of the proof are
     recorded on ctx; the caller runs its implementation-level search and then calls
@@ -517,7 +517,7 @@ def prepare(rep, harnesses=('pure',), sanitize=None, prove_it=True, proof_timeou
     rep.cov['trusted_base'] = list(STD_TRUSTED)
     ctx.model = None
     if ok:
-        mok, exe, lg = build_model_driver(rep.id)
+        mok, exe, lg = build_model_driver(model or rep.id)
         if mok:
             ctx.model = exe
         else:
